@@ -765,13 +765,17 @@ pub fn c11_script(r: &mut Rng, _index: u64, _tier: Tier) -> (CaseCfg, Vec<Step>)
         _ => {}
     }
     s.push(req);
-    // the very next write is answered with Ok(0) / an error
-    let kind = match r.below(3) {
-        0 => FaultKind::WriteZero,
-        1 => FaultKind::Error(ErrKind::WriteZero),
-        _ => FaultKind::Error(ErrKind::BrokenPipe),
-    };
-    s.push(Step::Io { policy: None, faults: vec![FaultPlan { at: FaultAt::OutBytes(0), kind }] });
+    // the very next write is answered with Ok(0) / an error - or (one case in three) the
+    // transport goes on taking its pieces, so that disconnect() has to finish the packet in
+    // several writes before the DISCONNECT may follow
+    if !r.chance(1, 3) {
+        let kind = match r.below(3) {
+            0 => FaultKind::WriteZero,
+            1 => FaultKind::Error(ErrKind::WriteZero),
+            _ => FaultKind::Error(ErrKind::BrokenPipe),
+        };
+        s.push(Step::Io { policy: None, faults: vec![FaultPlan { at: FaultAt::OutBytes(0), kind }] });
+    }
     s.push(Step::Disconnect(DiscSpec { reason: *r.pick(&[None, Some(4u8)]), props: None, cancel_at: None }));
     // the handle is dead now, whatever disconnect() returned
     s.push(poll0());
